@@ -1,7 +1,94 @@
 import CddVerif.Driver.Basic
+import CddVerif.Model.Exmod
 /-! Driver ops for C20 (line protocol; see Main.lean). Only Mathlib-free imports here. -/
 namespace Driver.C20
-open Lean Driver
+open Lean Driver Exmod
 
-def ops : List (String × Handler) := []
+def optChars (j : Json) (k : String) : Option (List Char) :=
+  match j.getObjVal? k with
+  | .ok (.str s) => some s.toList
+  | _ => none
+
+def strList (j : Json) (k : String) : Except String (List (List Char)) := do
+  let a ← getArr j k
+  a.toList.mapM (fun x => do return (← x.getStr?).toList)
+
+def emitKindOf : String → Except String EmitKind
+  | "argparse" => pure .argparse
+  | "class" => pure .class_
+  | "function" => pure .function
+  | "json_schema" => pure .jsonSchema
+  | "pydantic" => pure .pydantic
+  | "sqlalchemy" => pure .sqlalchemy
+  | "sqlalchemy_table" => pure .sqlalchemyTable
+  | "sqlalchemy_hybrid" => pure .sqlalchemyHybrid
+  | s => throw s!"unknown emit kind {s}"
+
+def importOf (j : Json) : Except String ImportFrom := do
+  let names ← getArr j "names"
+  let ns ← names.toList.mapM (fun p => do
+    let a ← p.getArr?
+    let n ← a[0]!.getStr?
+    let asn := match a[1]! with | .str s => some s.toList | _ => none
+    return (n.toList, asn))
+  return { module := optChars j "module", names := ns, level := (getNat j "level").toOption.getD 0 }
+
+def stmtOf (j : Json) : Except String Stmt := do
+  match (← getStr j "k") with
+  | "def" => return .def_ (← getChars j "name")
+  | "from" => return .from_ (← importOf j)
+  | "all" => return .all_ (← strList j "names")
+  | _ => return .other
+
+def fsOf (j : Json) : Except String FS := do
+  let dirs ← strList j "dirs"
+  let files ← (← getArr j "files").toList.mapM (fun f => do
+    let body ← (← getArr f "body").toList.mapM stmtOf
+    let walk ← (← getArr f "walk").toList.mapM importOf
+    return ((← getChars f "path"), ({ body := body, walk := walk } : PyFile)))
+  return { dirs := dirs, files := files }
+
+def cfgOf (j : Json) : Except String Cfg := do
+  let emits ← (← getArr j "emit").toList.mapM (fun x => do emitKindOf (← x.getStr?))
+  return { emitNames := emits, module := (← getChars j "module"), blacklist := (← strList j "blacklist"),
+           whitelist := (← strList j "whitelist"), out := (← getChars j "out"), target := optChars j "target",
+           sqlSub := (← getBool j "sqlsub"), recursive := (← getBool j "recursive"), dryRun := (← getBool j "dry_run") }
+
+def envOf (j : Json) : Except String Env := do
+  let specs ← (← getArr j "specs").toList.mapM (fun p => do
+    let a ← p.getArr?
+    return ((← a[0]!.getStr?).toList, (← a[1]!.getStr?).toList))
+  return { specs := specs, allPackages := (← strList j "packages") }
+
+def effectJson : Effect → Json
+  | .print s => Json.arr #[Json.str "print", str s]
+  | .mkdir p => Json.arr #[Json.str "mkdir", str p]
+  | .openA p => Json.arr #[Json.str "open-a", str p]
+  | .openW p => Json.arr #[Json.str "open-w", str p]
+
+def errName : Err → String
+  | .assertion => "AssertionError"
+  | .moduleNotFound => "ModuleNotFoundError"
+  | .typeError => "TypeError"
+  | .fileNotFound => "FileNotFoundError"
+  | .fileExists => "FileExistsError"
+  | .attributeError => "AttributeError"
+  | .notADirectory => "NotADirectoryError"
+
+def ops : List (String × Handler) := [
+  /- the model's trace for a JSON-described file system + configuration -/
+  ("c20.trace", fun j => do
+    let cfg ← cfgOf (← j.getObjVal? "cfg")
+    let env ← envOf (← j.getObjVal? "env")
+    let fs ← fsOf (← j.getObjVal? "fs")
+    let r := run cfg env fs
+    let status := match r.val with | .ok _ => "ok" | .error e => "raises:" ++ errName e
+    return Json.mkObj [("trace", Json.arr (r.trace.map effectJson).toArray), ("status", Json.str status),
+                       ("dirs", strs r.fs.dirs), ("files", strs (r.fs.files.map (·.1)))]),
+  /- the gate of `exmod_single_folder` alone -/
+  ("c20.gate", fun j => do
+    let mp := modPathOf (← getChars j "module_root") (← getChars j "module_name")
+    return Json.mkObj [("mod_path", str mp),
+                       ("proceed", Json.bool (proceed (← strList j "blacklist") (← strList j "whitelist") mp))])
+]
 end Driver.C20
